@@ -75,7 +75,9 @@ func Materialise(sp BlobSpec) *TBlob {
 // GenBlobSpecs draws n blob specs with the size/hash mix of DESIGN §2.5.
 // maxSize bounds the largest blob.
 func GenBlobSpecs(r *simcore.Rand, n int, maxSize int) []BlobSpec {
-	sizes := []int{0, 1, 2, 17, 100, 511, 1000, 4096, 65535, 65536, 65537, 262144, 1 << 20}
+	// (the first seven are the common ones; the rest are powers of two and
+	// their neighbours: buffer and threshold boundaries)
+	sizes := []int{0, 1, 2, 17, 100, 511, 1000, 4096, 65535, 65536, 65537, 262144, 1 << 20, 32767, 32768, 32769, 8192, 16384}
 	var specs []BlobSpec
 	for i := 0; i < n; i++ {
 		sp := BlobSpec{Salt: r.Uint64()}
